@@ -1036,7 +1036,7 @@ def run(ck):
             G = ValueGen(rng, I, rng.choice([0.0, 0.3, 0.6]))
             root = Elem("return" if rng.random() < 0.8 else "fReturn",
                         G.content(I.ret, rng.choice([1, 2, 2, 3]), rng.choice([0.0, 0.5, 1.0, 1.0])))
-            if root.content.kind == "nil" or depth_of(root) > 60 or expanded_size(root) > 300:
+            if root.content.kind == "nil" or depth_of(root) > 60 or expanded_size(root) > 200:
                 ck.count("value-skipped-too-large")
                 continue        # shared sub-values can stack up: keep clear of Python's recursion limit
             variants(client, wsdl, I, root, (k, v), n_out)
@@ -1048,7 +1048,7 @@ def run(ck):
 
     preds = ["mr_agrees", "mr_spec_ok", "mr_same", "mr_shows", "gen_ok", "mr_instance",
              "fun c => negb (mr_guard c)", "mr_heap_ok"]
-    res = ck.run_cases("mr", PRE, "mcase", [c for c, _ in cases], preds, shard=40)
+    res = ck.run_cases("mr", PRE, "mcase", [c for c, _ in cases], preds, shard=20)
     bad_gen = res["gen_ok"]
     if bad_gen:
         m = cases[bad_gen[0]][1]
